@@ -36,7 +36,7 @@ def file_lines(d, shape, n):
                 cols[3] = cols[4] = "."
             if i % 3 == 2:
                 cols[5], cols[7] = "0.9", "2"
-            extras = [[], ["e1"], ["e1", "e 2"]][i % 3]
+            extras = [[], ["e1"], ["e1", "e 2"], ["e1", ""], [""], ["", "x"]][i % 6]      # incl. empty trailing columns
         elif shape == "parent":
             items = [("ID", [fid]), ("tag", tag)]
             if i >= 1:
